@@ -113,7 +113,16 @@ func c16Check(res *vh.Result, cfg *icCfg) func(r *icRun, x *vrt.Sched, cost int)
 			viol("deadlock", strings.Join(r.stuck, ","), "clients never finished "+x.Err)
 			return
 		}
-		gets, hits := uint64(0), uint64(0)
+		// hits: a plain Get that returned a value; for the loading store a Get that was answered from the
+		// map without running or joining a load (the code counts leaders and joiners as misses). A caller
+		// whose value equals that of a load which was still registered during its call may be either.
+		gets, hits, maybeHits := uint64(0), uint64(0), uint64(0)
+		loadedBy := map[int]*icCall{}
+		for _, c := range r.calls {
+			if c.Loaded {
+				loadedBy[c.V] = c
+			}
+		}
 		for _, c := range r.calls {
 			if c.Client < 0 && c.Client != -1 {
 				continue
@@ -126,8 +135,12 @@ func c16Check(res *vh.Result, cfg *icCfg) func(r *icRun, x *vrt.Sched, cost int)
 				}
 			case "lget":
 				gets++
-				if c.OK && !c.Loaded && !c.joined {
-					hits++
+				if c.OK && !c.Loaded {
+					if ld := loadedBy[c.Got]; ld != nil && (ld.Ret == 0 || ld.Ret > c.Inv) {
+						maybeHits++
+					} else {
+						hits++
+					}
 				}
 			}
 		}
@@ -158,14 +171,8 @@ func c16Check(res *vh.Result, cfg *icCfg) func(r *icRun, x *vrt.Sched, cost int)
 			if st.Hits+st.Misses != gets {
 				viol("stats-total", cfg.Name, fmt.Sprintf("Hits %d + Misses %d != %d Get calls", st.Hits, st.Misses, gets))
 			}
-			if cfg.Loading {
-				// a caller that joined another caller's load is neither a plain hit nor a loader run; the
-				// statement only fixes Hits as "calls that returned a value" for plain Gets
-				if st.Hits > gets {
-					viol("stats-hits", cfg.Name, fmt.Sprintf("Hits %d > Get calls %d", st.Hits, gets))
-				}
-			} else if st.Hits != hits {
-				viol("stats-hits", cfg.Name, fmt.Sprintf("Hits %d != %d Get calls that returned a value", st.Hits, hits))
+			if st.Hits < hits || st.Hits > hits+maybeHits {
+				viol("stats-hits", cfg.Name, fmt.Sprintf("Hits %d, but %d Get calls certainly returned a resident value (+%d that either hit or joined a load)", st.Hits, hits, maybeHits))
 			}
 		}
 		var sum int64
